@@ -187,6 +187,8 @@ def fill_builder(tf_value):
         # the input of fill is the output of collapse: labels on bucket ends, strictly increasing
         st.qassumes.append(QAssume(lambda p: z3.Implies(z3.And(p >= 0, p < n), ts[p] % tf == 0), "labels-are-bucket-ends"))
         st.qassumes.append(QAssume(lambda p: z3.Implies(z3.And(p >= 0, p + 1 < n), ts[p] < ts[p + 1]), "labels-strictly-increasing"))
+        # lemma (induction on the distance, on paper; listed as an assumption): adjacent-strict order implies order w.r.t. the last
+        st.qassumes.append(QAssume(lambda p: z3.Implies(z3.And(p >= 0, p < n), ts[p] <= ts[n - 1]), "labels-bounded-by-the-last (lemma)"))
         m = st.alloc(ObjP(mcls, {"candles": st.alloc(HListP("unused", csr, lo=z3.IntVal(0), hi=z3.IntVal(0))), "timeframe": None,
                                  "timeframe_fill": True, "candles_lifespan": None, "candlestick_type": None}))
         g = {"cs": csr, "n": SInt(n), "tf": SInt(tf), "next0": SInt(next0)}
@@ -202,6 +204,7 @@ FILL_INV = {
     "prefix-is-contiguous": f"forall(0, index - 1, lambda q: {TS(ID('q + 1'))} == {TS(ID('q'))} + tf)",
     "labels-are-bucket-ends": f"forall(0, LLen(candles), lambda q: {TS(ID('q'))} % tf == 0)",
     "labels-strictly-increasing": f"forall(0, LLen(candles) - 1, lambda q: {TS(ID('q'))} < {TS(ID('q + 1'))})",
+    "labels-bounded-by-the-last-bucket": f"forall(0, LLen(candles), lambda q: {TS(ID('q'))} <= F(cs, 'ts', n - 1))",
     "real-buckets-untouched": "forall(0, n, lambda p: F(cs, 'ts', p) == F0(cs, 'ts', p) and F(cs, 'close', p) == F0(cs, 'close', p)"
                               " and F(cs, 'open', p) == F0(cs, 'open', p) and F(cs, 'high', p) == F0(cs, 'high', p) and F(cs, 'low', p) == F0(cs, 'low', p)"
                               " and F(cs, 'volume', p) == F0(cs, 'volume', p) and F(cs, 'rd', p) == F0(cs, 'rd', p))",
@@ -233,6 +236,8 @@ for _tf in ((1, 300, 86400) if _os.environ.get("HEXVC_TIER") != "thorough" else 
     HEX_TASKS[CM + f"fill_missing_candles#tf={_tf}s"] = dict(qualname=CM + "fill_missing_candles", builder=fill_builder(_tf), contract=FILL, natives=STORE_NATIVES)
 LOOPS[(CM + "fill_missing_candles", 0)] = LoopSpec(
     invariant=FILL_INV,
+    # termination of `while True`: the label of candles[index - 1] moves one timeframe closer to the last bucket every iteration
+    decreases=f"F(cs, 'ts', n - 1) - {TS(ID('index - 1'))}",
     types={"index": "int", "prev_candle": "hcandle", "fill_candle": "hcandle", "candles": "hlist"},
     modifies_heap=["cs"],
     write_frame=("cs", []),
